@@ -155,6 +155,7 @@ type Engine struct {
 
 	QEs []*QEInfo
 	curReq *Submission
+	subsChecked bool
 	Mon *simconn.Monitor
 	foreignShutdownEpoch int
 
@@ -268,9 +269,24 @@ func NewEngine(sim *sched.Sim, h *Hist, c *SvcCase) *Engine {
 	for i := range c.Pats {
 		p := &c.Pats[i]
 		m := getMux(p.Mounts)
+		if p.Listen > 2 {
+			// a listener registered before the handler exists
+			i := i
+			m.AddListener(p.Pattern, func(ev *res.Event) { e.listener(i, 2, ev) })
+		}
 		m.Handle(p.Pattern, e.options(i, p)...)
+		if p.Listen > 1 {
+			i := i
+			m.AddListener(p.Pattern, func(ev *res.Event) { e.listener(i, 1, ev) })
+		}
 	}
 	e.Svc = svc
+	for i := 0; i < c.Epochs; i++ {
+		ep := &EpochInfo{}
+		ep.Conn = e.newConn(ep)
+		e.Epochs = append(e.Epochs, ep)
+	}
+	e.Conn = e.Epochs[0].Conn
 	return e
 }
 
@@ -294,7 +310,7 @@ func (e *Engine) prepare(s *Submission) {
 			// among such requests
 			e.bySubject[op.Subject] = s
 		}
-	case "with", "withres", "emit":
+	case "with", "withres", "emit", "emitscript":
 		rname := op.RID
 		if i := strings.IndexByte(rname, '?'); i >= 0 {
 			rname = rname[:i]
@@ -397,7 +413,36 @@ func (e *Engine) options(pi int, p *PatSpec) []res.Option {
 		opts = append(opts, res.Group(p.Group))
 	}
 	opts = append(opts, e.applyOptions(pi, p)...)
+	if p.Listen > 0 {
+		ls := map[string]func(*res.Event){}
+		ls[p.Pattern] = func(ev *res.Event) { e.listener(pi, 0, ev) }
+		opts = append(opts, res.OptionFunc(func(h *res.Handler) { h.Listeners = ls }))
+	}
 	return opts
+}
+
+// listener records what an event listener was handed.
+func (e *Engine) listener(pi, li int, ev *res.Event) {
+	var d string
+	switch ev.Name {
+	case "change":
+		d = digest(ev.NewValues, ev.OldValues)
+	case "add", "remove":
+		d = digest(ev.Value, ev.Idx)
+	case "create", "delete":
+		d = digest(ev.Data)
+	default:
+		d = digest(ev.Payload)
+	}
+	e.H.Rec("listener", "", pi, fmt.Sprintf("%d %s %s %s", li, ev.Name, ev.Resource.ResourceName(), d))
+}
+
+func digest(vs ...interface{}) string {
+	b, err := json.Marshal(vs)
+	if err != nil {
+		return "!" + err.Error()
+	}
+	return string(b)
 }
 
 // scratchFor returns per-group unsynchronised scratch memory: handlers of one
@@ -513,6 +558,8 @@ func (e *Engine) runScript(s *Submission, script []string, r res.Resource, kind 
 			r.Event(arg, map[string]interface{}{"n": s.Op.ID})
 		case "chg":
 			r.ChangeEvent(map[string]interface{}{"k" + arg: s.Op.ID})
+		case "chgempty":
+			r.ChangeEvent(map[string]interface{}{})
 		case "add":
 			idx, _ := strconv.Atoi(arg)
 			r.AddEvent("v"+strconv.Itoa(s.Op.ID), idx)
@@ -691,12 +738,6 @@ func (e *Engine) newConn(ep *EpochInfo) *simconn.Conn {
 // actors.
 func (e *Engine) StartActors() {
 	c := e.Case
-	for i := 0; i < c.Epochs; i++ {
-		ep := &EpochInfo{}
-		ep.Conn = e.newConn(ep)
-		e.Epochs = append(e.Epochs, ep)
-	}
-	e.Conn = e.Epochs[0].Conn
 	e.Sim.Go("serve", func() {
 		for i := 0; i < c.Epochs; i++ {
 			ep := e.Epochs[i]
@@ -862,6 +903,16 @@ func (e *Engine) doOp(a *ActorSpec, op *Op) {
 		}
 		e.Sim.Yield("call.return", "emit")
 		s.Return = e.H.Rec("call.return", "", op.ID, "emit")
+	case "emitscript":
+		r, err := e.Svc.Resource(op.RID)
+		if err != nil {
+			s.Err = err.Error()
+			return
+		}
+		s.Invoke = e.H.Rec("call.invoke", "", op.ID, "emitscript "+op.RID)
+		e.runScript(s, op.Script, r, "emit")
+		e.Sim.Yield("call.return", "emitscript")
+		s.Return = e.H.Rec("call.return", "", op.ID, "emitscript")
 	case "qreq":
 		e.doQueryReq(s, op)
 	case "pause":
